@@ -43,12 +43,16 @@ class FnSpec:
         self.path, self.lineno = path, lineno
         self.props = []
         self.blocks = []
+        self.twin = None
+        self.twin_subst = []
+        self.drop_body = False
 
 
 class FileSpec:
     def __init__(self, path):
         self.path = path
         self.wrap = False
+        self.wrap_from = None
         self.blocks = []     # top / bottom / file-replace
         self.fns = []
 
@@ -75,6 +79,9 @@ def parse_vspec(text, origin="<vspec>"):
                 cur_file = FileSpec(arg.strip()); files.append(cur_file); cur_fn = None
             elif d == "@wrap":
                 cur_file.wrap = True
+            elif d == "@wrap-from":
+                cur_file.wrap = True
+                cur_file.wrap_from = arg.strip()[1:-1]
             elif d in ("@top", "@bottom", "@file-replace"):
                 cur_fn = None
                 cur_block = Block(d[1:], arg, ln); cur_file.blocks.append(cur_block)
@@ -88,6 +95,13 @@ def parse_vspec(text, origin="<vspec>"):
                 cur_block = Block(d[1:], arg, ln); cur_fn.blocks.append(cur_block)
             elif d == "@break-value-loops":
                 cur_fn.blocks.append(Block("bvl", "", ln))
+            elif d == "@twin":
+                cur_fn.twin = arg.strip()
+            elif d == "@twin-subst":
+                a, b = arg.split("=>")
+                cur_fn.twin_subst.append((a.strip(), b.strip()))
+            elif d == "@drop-body":
+                cur_fn.drop_body = True
             elif d == "@#":
                 pass
             else:
@@ -189,7 +203,7 @@ def annotate_file(src, fspec, relfile):
             if len(ms) < 1:
                 raise AnchorLost("%s: file-replace /%s/ matched %d times" % (relfile, rx.pattern, len(ms)))
             for m in ms:
-                repls.append((m.start(), m.end(), "\n".join(_strip_blank(b.lines))))
+                repls.append((m.start(), m.end(), m.expand("\n".join(_strip_blank(b.lines)))))
 
     for fs in fspec.fns:
         f = _find_fn(fns, fs.path, relfile)
@@ -330,11 +344,92 @@ def annotate_file(src, fspec, relfile):
             raise AnchorLost("%s: overlapping edits near offset %d" % (relfile, s))
         out = out[:s] + t + out[e:]
         last = s if e > s else last
-    if fspec.wrap:
+    twins = [fs for fs in fspec.fns if fs.twin is not None or fs.drop_body]
+    if twins:
+        toks2, fns2 = rustlex.index_functions(out)
+        twin_texts = []
+        drops = []
+        for fs in twins:
+            f2 = _find_fn(fns2, fs.path, relfile)
+            if fs.twin is not None:
+                twin_texts.append(make_twin(out, toks2, f2, fs))
+            if fs.drop_body:
+                drops.append((toks2[f2.body_open].start, toks2[f2.body_close].end))
+        for a, b in sorted(drops, reverse=True):
+            out = out[:a] + "{ unimplemented!() }" + out[b:]
+        bottom = bottom + "\n" + "\n".join(twin_texts)
+    if fspec.wrap and fspec.wrap_from:
+        ms = list(re.finditer(fspec.wrap_from, out, re.M))
+        if len(ms) != 1:
+            raise AnchorLost("%s: wrap-from /%s/ matched %d times" % (relfile, fspec.wrap_from, len(ms)))
+        k = out.rfind("\n", 0, ms[0].start()) + 1
+        out = "#[allow(unused_imports)] use vstd::prelude::*;\n" + out[:k] + "verus! {\n" + top + "\n" + out[k:] + "\n" + bottom + "\n} // verus!\n"
+    elif fspec.wrap:
         out = "#[allow(unused_imports)] use vstd::prelude::*;\nverus! {\n" + top + "\n" + out + "\n" + bottom + "\n} // verus!\n"
     elif top or bottom:
         out = out + "\n#[allow(unused_imports)] use vstd::prelude::*;\nverus! {\n" + top + "\n" + bottom + "\n} // verus!\n"
     return out, obligations, fn_props
+
+
+def make_twin(text, toks, f, fs):
+    """Free-function twin of a trait default method: same body, `self` -> `self_`, `Self` -> `S_`.
+    Verus rejects default methods that call generic functions bounded by their own trait (trait
+    cycle check); the method itself is therefore given its contract as an assumption
+    (external_body) and the SAME contract is proved on this twin, generated from the current text."""
+    name = "twin_" + "_".join(f.container + [f.name])
+    # own generics
+    k = f.fn_tok + 2
+    own = ""
+    if toks[k].text == "<":
+        e = rustlex._skip_generics(toks, k)
+        own = text[toks[k].end:toks[e - 1].start].strip()
+    generics = ", ".join(x for x in (own, fs.twin) if x)
+    def sub_tokens(a_tok, b_tok):
+        """text of tokens a..b (inclusive) with self/Self substituted, keeping original spacing/comments"""
+        if a_tok > b_tok:
+            return ""
+        out = []
+        pos = toks[a_tok].start
+        for q in range(a_tok, b_tok + 1):
+            t = toks[q]
+            out.append(text[pos:t.start])
+            if t.kind == "id" and t.text == "self":
+                out.append("self_")
+            elif t.kind == "id" and t.text == "Self":
+                out.append("S_")
+            else:
+                out.append(t.text)
+            pos = t.end
+        return "".join(out)
+    # receiver
+    ps, pe = f.params_open + 1, f.params_close - 1
+    q = ps
+    depth = 0
+    while q <= pe and not (toks[q].text == "," and depth == 0):
+        if toks[q].text in "([{<":
+            depth += 1
+        elif toks[q].text in ")]}>":
+            depth -= 1
+        q += 1
+    recv = [t.text for t in toks[ps:q]]
+    rest = sub_tokens(q + 1, pe) if q < pe else ""
+    if recv == ["&", "self"]:
+        r = "self_: &S_"
+    elif recv == ["&", "mut", "self"]:
+        r = "self_: &mut S_"
+    elif recv == ["self"]:
+        r = "self_: S_"
+    elif recv == ["mut", "self"]:
+        r = "mut self_: S_"
+    else:
+        raise AnchorLost("twin of %s: unsupported receiver %r" % (fs.path, recv))
+    params = r + (", " + rest if rest.strip() else "")
+    tail = sub_tokens(f.params_close + 1, f.body_close)
+    unsafe = "unsafe " if any(toks[q].text == "unsafe" for q in range(f.item_start, f.fn_tok)) else ""
+    tw = "pub %sfn %s<%s>(%s)%s" % (unsafe, name, generics, params, tail)
+    for a, b in fs.twin_subst:
+        tw = tw.replace(a, b)
+    return tw
 
 
 def build_line_map(text):
